@@ -151,13 +151,14 @@ UNITS.extend(with_overlap(dict(
     name='mpn_rshift', props=['C03', 'C05', 'C04', 'C15'], source='mpn/generic/rshift.c', contracts=['mpn.h'],
     enforce=['__gmpn_rshift'],
     functions={'__gmpn_rshift': dict(
-        entry='mp_size_t V_n0 = n; mp_ptr V_rp0 = rp; mp_srcptr V_up0 = up; mp_limb_t V_u = up[gk], V_uh = up[gk + (gk < n - 1)];',
+        entry='mp_size_t V_n0 = n; mp_ptr V_rp0 = rp; mp_srcptr V_up0 = up; mp_limb_t V_u = up[gk], V_uh = up[gk + (gk < n - 1)], V_ut = up[n - 1];',
         # at loop head: j = n-1-i limbs written; low_limb == old up[j] >> cnt; up at j+1, rp at j
         loops={0: dict(scalars=['i', 'low_limb', 'high_limb'], havoc_targets=['up', 'rp'],
                        havoc='{ __CPROVER_assume (0 <= i && i <= V_n0 - 1); up = V_up0 + (V_n0 - i); rp = V_rp0 + (V_n0 - 1 - i); }',
                        slices=[('V_rp0', 'V_n0 * 8')],
                        inv='''(0 <= i && i <= V_n0 - 1 && up == V_up0 + (V_n0 - i) && rp == V_rp0 + (V_n0 - 1 - i) && tnc == 64 - cnt && 1 <= cnt && cnt <= 63 && n == V_n0
                            && (gk > V_n0 - 1 - i ==> V_up0[gk] == V_u) && (gk < V_n0 - 1 && gk >= V_n0 - 1 - i ==> V_up0[gk + 1] == V_uh)
+                           && (i > 0 ==> V_up0[V_n0 - 1] == V_ut) && (i == 0 ==> low_limb == (V_ut >> cnt))
                            && (gk == V_n0 - 1 - i ==> low_limb == (V_u >> cnt))
                            && (gk < V_n0 - 1 - i ==> V_rp0[gk] == ((V_u >> cnt) | (V_uh << (64 - cnt)))))''', dec='i')})},
     harness=mpn_harness('mpn_rshift', 'unsigned cnt; __gmpn_rshift (rp, up, n, cnt);', ptrs=('rp', 'up')),
